@@ -147,6 +147,27 @@ func (fc *fctx) call(e *ast.CallExpr, nres int) string {
 			return "(dec_of_N " + fc.expr(e.Args[0]) + ")"
 		}
 		t.fail(e, "strconv.FormatUint with a base other than the constant 10")
+	case "strings.ToLower":
+		return "(to_lower " + fc.args(e)[0] + ")"
+	case "strings.TrimPrefix":
+		a := fc.args(e)
+		return "(trim_prefix_go " + a[1] + " " + a[0] + ")"
+	case "strings.SplitN":
+		if tv, ok := t.info.Types[e.Args[1]]; ok && tv.Value != nil && len(constant.StringVal(tv.Value)) == 1 && isConstInt(t, e.Args[2], "2") {
+			return fmt.Sprintf("(splitn2_go %d%%N %s)", constant.StringVal(tv.Value)[0], fc.expr(e.Args[0]))
+		}
+		t.fail(e, "strings.SplitN in another form than (s, one-byte constant, 2)")
+	case "(url.URL).Query":
+		u := fc.bind("deref " + fc.expr(e.Fun.(*ast.SelectorExpr).X))
+		return "(parse_query (u_rawquery " + u + "))"
+	case "(url.Values).Get":
+		return "(query_get " + fc.args(e)[0] + " " + fc.expr(e.Fun.(*ast.SelectorExpr).X) + ")"
+	case "(url.Values).Encode":
+		return "(values_encode " + fc.expr(e.Fun.(*ast.SelectorExpr).X) + ")"
+	case "url.PathEscape":
+		return "(escape " + fc.args(e)[0] + " MPathSegment)"
+	case "fmt.Sprintf":
+		return fc.sprintf(e)
 	case "strconv.ParseUint":
 		ok := len(e.Args) == 3
 		for i, want := range []string{"", "10", "64"} {
@@ -330,4 +351,67 @@ func (fc *fctx) errorf(e *ast.CallExpr) string {
 		}
 	}
 	return "(Some (" + tag + " [" + strings.Join(nums, "; ") + "] [" + strings.Join(strs, "; ") + "]))"
+}
+
+// fmt.Sprintf with a constant template of literal text, %s (strings) and %d (integers)
+func (fc *fctx) sprintf(e *ast.CallExpr) string {
+	t := fc.t
+	tv, ok := t.info.Types[e.Args[0]]
+	if !ok || tv.Value == nil {
+		t.fail(e, "fmt.Sprintf with a computed format")
+	}
+	tmpl := constant.StringVal(tv.Value)
+	var parts []string
+	lit := ""
+	ai := 1
+	flush := func() {
+		if lit != "" {
+			var bs []string
+			for _, c := range []byte(lit) {
+				bs = append(bs, fmt.Sprintf("%d", c))
+			}
+			parts = append(parts, "["+strings.Join(bs, "; ")+"]")
+			lit = ""
+		}
+	}
+	for i := 0; i < len(tmpl); i++ {
+		if tmpl[i] != '%' {
+			lit += string(tmpl[i])
+			continue
+		}
+		if i+1 >= len(tmpl) || ai >= len(e.Args) {
+			t.fail(e, "fmt.Sprintf template %q", tmpl)
+		}
+		flush()
+		a := e.Args[ai]
+		ai++
+		k := fc.kind(a)
+		switch tmpl[i+1] {
+		case 's':
+			if k != kBytes {
+				t.fail(a, "%%s of %s", fc.typeOf(a))
+			}
+			parts = append(parts, fc.expr(a))
+		case 'd':
+			switch {
+			case isUnsigned(k):
+				parts = append(parts, "(dec_of_N "+fc.expr(a)+")")
+			case k == kI64 || k == kI32:
+				parts = append(parts, "(dec_of_Z "+fc.expr(a)+")")
+			default:
+				t.fail(a, "%%d of %s", fc.typeOf(a))
+			}
+		default:
+			t.fail(e, "fmt.Sprintf verb %%%c", tmpl[i+1])
+		}
+		i++
+	}
+	flush()
+	if ai != len(e.Args) {
+		t.fail(e, "fmt.Sprintf argument count")
+	}
+	if len(parts) == 0 {
+		return "[]"
+	}
+	return "(" + strings.Join(parts, " ++ ") + ")"
 }
